@@ -88,7 +88,12 @@ func (p *Program) WriteTo(cw *CodeWriter) {
 	if len(p.Statements) > 0 {
 		cw.WriteNewline()
 	}
-	cw.WriteLeadingComments(p.EOF.LeadingComments)
+	// blank lines at the very end of the source are not printed
+	comments := p.EOF.LeadingComments
+	for len(comments) > 0 && comments[len(comments)-1] == "" {
+		comments = comments[:len(comments)-1]
+	}
+	cw.WriteLeadingComments(comments)
 }
 
 // Statements
